@@ -962,6 +962,8 @@ def gen_view(name, relpath, items, all_items, ctor="new"):
             fld.append((f, "σ%s" % nt[5:]))
         elif nt.startswith("sub:"):
             S = nt[4:]
+            if S not in all_items:
+                raise Unsupported("embeds %s, whose source does not parse" % S)
             sub_items = all_items[S]
             ctx["subs"][S] = sub_items["structs"][S]
             ctx["subfns"][S] = sub_items["fns"].get(S, {})
@@ -1088,6 +1090,8 @@ def main():
             all_items[v] = parse_file(os.path.join(repo, "src", rel))
         except Unsupported as ex:
             report[v] = {"status": "untranslatable", "reason": "parse: " + str(ex), "source": rel}
+        except (IndexError, KeyError, ValueError, TypeError, AttributeError) as ex:
+            report[v] = {"status": "untranslatable", "reason": "parse: %s: %s" % (type(ex).__name__, ex), "source": rel}
         except FileNotFoundError:
             report[v] = {"status": "untranslatable", "reason": "source file missing", "source": rel}
     for v in want:
@@ -1108,9 +1112,9 @@ def main():
             if strip(old) != strip(text):
                 open(path, "w").write(text)
             report[v] = {"status": "generated", "source": rel, "changed": strip(old) != strip(text), "skipped_helpers": skipped}
-        except Unsupported as ex:
+        except (Unsupported, IndexError, KeyError, ValueError, TypeError, AttributeError) as ex:
             if os.path.exists(path): os.remove(path)
-            report[v] = {"status": "untranslatable", "reason": str(ex), "source": rel}
+            report[v] = {"status": "untranslatable", "reason": ("%s: " % type(ex).__name__ if not isinstance(ex, Unsupported) else "") + str(ex), "source": rel}
     json.dump(report, sys.stdout, indent=1)
     print()
 
